@@ -19,6 +19,10 @@ CONDS = [
          timeout={'quick': 100, 'thorough': 300}, parts={'quick': 2, 'thorough': 2}),
     Cond('copies_ok', 'pickle (default and protocol 2), copy, deepcopy: equal, equal hash, same select() on HTML and XML',
          'general selector pool', timeout={'quick': 100, 'thorough': 300}, parts={'quick': 2, 'thorough': 2}),
+    Cond('caller_maps_ok', 'the compiled object does not alias the caller\'s namespaces / custom dicts: after clear / change / add / '
+         'delete / retarget on them it keeps its maps, hash, equality with its copies and with a compile from the original '
+         'maps, and its selection', '6 (pattern, namespaces, custom) cases x 5 mutations x purge or not',
+         timeout={'quick': 60, 'thorough': 300}),
     Cond('cache_history_ok', 'after any history of 4 compile/purge calls compile(x) equals a cache-bypassing parse, is '
          'idempotent by identity, purge empties the cache, maxsize is 500',
          'histories of length 4 over 10 operations x observed selector from the general pool',
